@@ -43,6 +43,14 @@ def cells(tier):
         out.append(mk(PID, pairs[0], True, 'string', perm=perm, widths=[10, 1], T=T, sym_ids=True, may_fail=False,
                       sort_objects=True))
     out.append(mk(PID, pairs[1], True, 'file', perm=[2, 0, 1], widths=[10, 10], T=T, sym_ids=True, may_fail=False))
+    # the roCreate's own ID is symbolic too and need not be the lowest; a roDelete is sorted like everything else
+    for perm in ([2, 0, 1], [1, 2, 0], [0, 1, 2]):
+        out.append(mk(PID, pairs[0], True, 'string', perm=perm, widths=[1, 2], T=T, sym_ids=True, may_fail=False,
+                      sort_objects=True, sym_rc=2))
+        out.append(mk(PID, ('roStoryAppend', 'roDelete'), False, 'string', perm=perm, widths=[2, 1], T=T, sym_ids=True,
+                      may_fail=False, sort_objects=True, sym_rc=1))
+    out.append(mk(PID, ('roDelete', 'roStoryMove', 'roStoryAppend'), False, 'file', perm=[3, 0, 2, 1], widths=[1, 2, 3], T=T,
+                  sym_ids=True, may_fail=False, sort_objects=True, sym_rc=2))
     # a roReplace is ordered by its message ID like everything else
     for perm in ([3, 2, 1, 0], [1, 3, 0, 2], [0, 1, 2, 3]):
         out.append(mk(PID, ('roMetadataReplace', 'roReplace', 'roMetadataReplace'), True, 'string', perm=perm,
